@@ -126,6 +126,7 @@ type verifWheelCall struct {
 	Key   *string `json:"key"`
 	Val   int     `json:"val"`
 	Delay int64   `json:"delay"` // nanoseconds
+	N     int     `json:"n"`     // ticks: that many ticks, observed as one call (fired_at: tick offset of every callback)
 	W     int     `json:"w"`     // 1: the call goes to the second wheel of the case (set | move | remove | drain | tick | stop)
 }
 
@@ -143,8 +144,9 @@ type verifWheelCase struct {
 }
 
 type verifWheelObs struct {
-	Err     int            `json:"err"`  // 0 nil, 1 ErrClosed, 2 ErrArgument, 3 panic
-	Err2    int            `json:"err2"` // setrm: error of the RemoveTimer
+	Err     int            `json:"err"`      // 0 nil, 1 ErrClosed, 2 ErrArgument, 3 panic
+	Err2    int            `json:"err2"`     // setrm: error of the RemoveTimer
+	FiredAt [][3]any       `json:"fired_at"` // ticks: (tick offset, key, value) of every callback of the burst
 	Fired   []verifPair    `json:"fired"`
 	Drained []verifPair    `json:"drained"`
 	Rearmed []verifRearmed `json:"rearmed"` // wheel calls made from inside callbacks of this call's batch, in order
@@ -159,16 +161,43 @@ type verifRearmed struct {
 	call  int
 }
 
+// keys holding the zero value of their type, behind plain aliases
+type verifZeroStruct struct {
+	A int
+	B string
+}
+
+var verifZeroKeys = map[string]any{"k70": int(0), "k71": "", "k72": false, "k73": verifZeroStruct{}, "k74": float64(0)}
+
+func verifKeyOf(name string) any {
+	if z, ok := verifZeroKeys[name]; ok {
+		return z
+	}
+	return name
+}
+
+// verifKeyName is the inverse of verifKeyOf (what the callbacks record).
+func verifKeyName(k any) string {
+	for name, z := range verifZeroKeys {
+		if k == z {
+			return name
+		}
+	}
+	ks, _ := k.(string)
+	return ks
+}
+
 func verifKey(k *string) any {
 	if k == nil {
 		return nil
 	}
-	return *k
+	return verifKeyOf(*k)
 }
 
 type verifEvent struct {
 	pair verifPair
 	call int
+	off  int // within a `ticks` burst: the tick (0-based) during which the batch started
 }
 
 // verifGates records the callbacks and lets the case hold some of them. A callback batch (one
@@ -179,6 +208,8 @@ type verifGates struct {
 	cur                   int            // index of the call being processed
 	lastDrain             int            // index of the latest Drain call
 	batch                 map[uint64]int // goroutine id -> call of its first callback
+	batchOff              map[uint64]int // goroutine id -> tick offset (ticks burst) of its first callback
+	tickOff               int
 	fired                 []verifEvent
 	drained               []verifEvent
 	armed                 map[string]chan struct{} // hold: key -> gate not yet reached
@@ -194,7 +225,7 @@ type verifGates struct {
 }
 
 func (g *verifGates) exec(k, v any) {
-	ks, _ := k.(string)
+	ks := verifKeyName(k)
 	vi, _ := v.(int)
 	gid := threading.RoutineId()
 	g.mu.Lock()
@@ -202,8 +233,11 @@ func (g *verifGates) exec(k, v any) {
 	if !ok {
 		c = g.cur
 		g.batch[gid] = c
+		if g.batchOff != nil {
+			g.batchOff[gid] = g.tickOff
+		}
 	}
-	g.fired = append(g.fired, verifEvent{verifPair{ks, vi}, c})
+	g.fired = append(g.fired, verifEvent{verifPair{ks, vi}, c, g.batchOff[gid]})
 	inner, rearm := g.rearm[ks]
 	delete(g.rearm, ks)
 	g.mu.Unlock()
@@ -211,11 +245,11 @@ func (g *verifGates) exec(k, v any) {
 		e := 0
 		switch inner.Op {
 		case "set":
-			e = verifErrCode(g.wheel.SetTimer(ks, inner.Val, time.Duration(inner.Delay)))
+			e = verifErrCode(g.wheel.SetTimer(verifKeyOf(ks), inner.Val, time.Duration(inner.Delay)))
 		case "move":
-			e = verifErrCode(g.wheel.MoveTimer(ks, time.Duration(inner.Delay)))
+			e = verifErrCode(g.wheel.MoveTimer(verifKeyOf(ks), time.Duration(inner.Delay)))
 		case "remove":
-			e = verifErrCode(g.wheel.RemoveTimer(ks))
+			e = verifErrCode(g.wheel.RemoveTimer(verifKeyOf(ks)))
 		}
 		g.mu.Lock()
 		g.rearmed = append(g.rearmed, verifRearmed{Op: inner.Op, Key: ks, Val: inner.Val, Delay: inner.Delay, Err: e, call: c})
@@ -238,10 +272,10 @@ func (g *verifGates) exec(k, v any) {
 }
 
 func (g *verifGates) drain(k, v any) {
-	ks, _ := k.(string)
+	ks := verifKeyName(k)
 	vi, _ := v.(int)
 	g.mu.Lock()
-	g.drained = append(g.drained, verifEvent{verifPair{ks, vi}, g.lastDrain})
+	g.drained = append(g.drained, verifEvent{verifPair{ks, vi}, g.lastDrain, 0})
 	gate := g.drainGate
 	if gate != nil {
 		atomic.AddInt32(&g.blocked, 1)
@@ -294,7 +328,7 @@ func verifWheel(raw json.RawMessage) any {
 	if err := json.Unmarshal(raw, &c); err != nil {
 		return map[string]any{"error": err.Error()}
 	}
-	g := &verifGates{batch: map[uint64]int{}, armed: map[string]chan struct{}{}, holding: map[string]chan struct{}{}, lastDrain: -1,
+	g := &verifGates{batch: map[uint64]int{}, batchOff: map[uint64]int{}, armed: map[string]chan struct{}{}, holding: map[string]chan struct{}{}, lastDrain: -1,
 		panicExec: map[string]bool{}, panicDrain: map[string]bool{}, rearm: map[string]verifWheelCall{}}
 	for k, v := range c.Rearm {
 		g.rearm[k] = v
@@ -436,6 +470,19 @@ func verifWheel(raw json.RawMessage) any {
 			}
 			g.mu.Unlock()
 			gd.run("Drain blocked", func() { e = verifErrCode(w.Drain(g.drain)) })
+		case "ticks": // many ticks as one call; every tick is still followed by a barrier and by settling
+			for i := 0; i < call.N && !stopped && gd.ok(); i++ {
+				g.mu.Lock()
+				g.tickOff = i
+				g.mu.Unlock()
+				gd.run("Tick blocked: ticker buffer full", ticker.Tick)
+				consumed()
+				barrier()
+				settle("callbacks of a tick inside a burst did not finish")
+			}
+			g.mu.Lock()
+			g.tickOff = 0
+			g.mu.Unlock()
 		case "tick":
 			if stopped { // a stopped ticker delivers nothing
 				break
@@ -576,6 +623,9 @@ func verifWheel(raw json.RawMessage) any {
 	for _, ev := range g.fired {
 		if ev.call < len(obs) {
 			obs[ev.call].Fired = append(obs[ev.call].Fired, ev.pair)
+			if c.Calls[ev.call].Op == "ticks" {
+				obs[ev.call].FiredAt = append(obs[ev.call].FiredAt, [3]any{ev.off, ev.pair.K, ev.pair.V})
+			}
 		} else {
 			late++
 		}
